@@ -164,7 +164,7 @@ func (p *IdentityProvider) ssoHandleFunc(w http.ResponseWriter, r *http.Request)
 			func() string { return authRequestForm.Binding },
 		),
 		verifyPostSignature(
-			func() string { return authRequestForm.AuthRequest },
+			func() string { return postSignedDocument(authRequestForm.Encoding, authRequestForm.AuthRequest) },
 			func() *serviceprovider.ServiceProvider { return sp },
 			func(errF error) { err = errF },
 		),
